@@ -1,5 +1,5 @@
 import GoCrypt.Props.C10
-import GoCrypt.Props.C02
+import GoCrypt.Props.C02Core
 import GoCrypt.Props.Accept
 import GoCrypt.Props.C14
 import GoCrypt.Props.C15
